@@ -538,8 +538,11 @@ func (w *Whisper) fetchRawPoints(archiveID int, fromInterval, untilInterval Time
 	fromOffset := r.pointOffsetAt(r.pointIndex(baseInterval, fromInterval))
 	untilOffset := r.pointOffsetAt(r.pointIndex(baseInterval, untilInterval))
 	if fromOffset < untilOffset {
+		// NOTE: i < len(points) matters only for a damaged file: with a base
+		// interval about 2^31 seconds away from the requested range, the
+		// offsets can be further apart than the number of requested points.
 		i := 0
-		for off := fromOffset; off < untilOffset; off += pointSize {
+		for off := fromOffset; off < untilOffset && i < len(points); off += pointSize {
 			points[i], err = w.readPointAt(off)
 			if err != nil {
 				return nil, err
